@@ -2282,4 +2282,227 @@ theorem verifyRRSIGWork_mono (g g' : Gov) (hle : govLe g g') (zone : Bytes) (m :
               exact sigLoop_mono _ _ (fun s ru b hs => oneSigWork_mono cv inPeriod supAlg tagOf keys g g' hle _ s ru b hs) _ 0 b hk
 end
 
+/-! ### the governed walk and the declarative VerifyRRSIG -/
+
+theorem mem_insertBy {α : Type} (lt : α → α → Bool) (x y : α) : ∀ l : List α, y ∈ insertBy lt x l ↔ y = x ∨ y ∈ l := by
+  intro l
+  induction l with
+  | nil => simp [insertBy]
+  | cons z t ih =>
+    unfold insertBy
+    split
+    · simp only [List.mem_cons, ih]
+      constructor
+      · rintro (h | h | h) <;> simp [h]
+      · rintro (h | h | h) <;> simp [h]
+    · simp
+
+theorem mem_sortBy {α : Type} (lt : α → α → Bool) (y : α) : ∀ l : List α, y ∈ sortBy lt l ↔ y ∈ l := by
+  intro l
+  induction l with
+  | nil => simp [sortBy]
+  | cons x t ih => simp [sortBy, mem_insertBy, ih]
+
+theorem dedupBy_sub {α κ : Type} [DecidableEq κ] (key : α → κ) : ∀ (l : List α) (seen : List κ) (x : α),
+    x ∈ dedupBy key l seen → x ∈ l := by
+  intro l
+  induction l with
+  | nil => intro seen x h; simp [dedupBy] at h
+  | cons y t ih =>
+    intro seen x h
+    unfold dedupBy at h
+    split at h
+    · exact List.mem_cons_of_mem _ (ih _ _ h)
+    · rcases List.mem_cons.mp h with rfl | h
+      · simp
+      · exact List.mem_cons_of_mem _ (ih _ _ h)
+
+theorem dedupBy_covers {α κ : Type} [DecidableEq κ] (key : α → κ) : ∀ (l : List α) (seen : List κ) (x : α),
+    x ∈ l → key x ∉ seen → ∃ y ∈ dedupBy key l seen, key y = key x := by
+  intro l
+  induction l with
+  | nil => intro seen x h; cases h
+  | cons z t ih =>
+    intro seen x hx hseen
+    unfold dedupBy
+    by_cases hz : key z ∈ seen
+    · simp only [hz, if_true]
+      rcases List.mem_cons.mp hx with rfl | hx
+      · exact absurd hz hseen
+      · exact ih seen x hx hseen
+    · simp only [hz, if_false]
+      rcases List.mem_cons.mp hx with rfl | hx
+      · exact ⟨x, by simp, rfl⟩
+      · by_cases hk : key x = key z
+        · exact ⟨z, by simp, hk.symm⟩
+        · obtain ⟨y, hy, hky⟩ := ih (key z :: seen) x hx (by simp [hk, hseen])
+          exact ⟨y, List.mem_cons_of_mem _ hy, hky⟩
+
+/-- sorting and collapsing by identity does not change whether some element satisfies a predicate that respects the identity. -/
+theorem exists_sortDedup {α κ : Type} [DecidableEq κ] (key : α → κ) (lt : α → α → Bool) (P : α → Prop)
+    (hP : ∀ a b, key a = key b → (P a ↔ P b)) (l : List α) :
+    (∃ x ∈ sortBy lt (dedupBy key l []), P x) ↔ ∃ x ∈ l, P x := by
+  constructor
+  · rintro ⟨x, hx, hp⟩
+    exact ⟨x, dedupBy_sub key l [] x ((mem_sortBy lt x _).mp hx), hp⟩
+  · rintro ⟨x, hx, hp⟩
+    obtain ⟨y, hy, hk⟩ := dedupBy_covers key l [] x hx (by simp)
+    exact ⟨y, (mem_sortBy lt y _).mpr hy, (hP y x hk).mpr hp⟩
+
+theorem exists_uniqueSortedKeys (P : VKey → Prop) (hP : ∀ a b, keyIdent a = keyIdent b → (P a ↔ P b)) (l : List VKey) :
+    (∃ k ∈ uniqueSortedKeys l, P k) ↔ ∃ k ∈ l, P k := by
+  unfold uniqueSortedKeys
+  split
+  · rfl
+  · exact exists_sortDedup keyIdent keyLt P hP l
+
+section
+variable (cv : VKey → VSig → List VRec → Verdict) (inPeriod : VSig → Bool) (supAlg : Nat → Bool) (tagOf : VKey → Nat)
+  (keys : List VKey)
+
+/-- without a work error `verifyOneSigWithWork` is `verifyOneSig`. -/
+theorem oneSigWork_verdict (g : Gov) (set : List VRec) (sig : VSig) (ru b : Nat)
+    (hcv : ∀ k k', keyIdent k = keyIdent k' → cv k sig set = cv k' sig set)
+    (h : (oneSigWork cv inPeriod supAlg tagOf keys g set sig ru b).1 ≠ WRes.work) :
+    (oneSigWork cv inPeriod supAlg tagOf keys g set sig ru b).1 = WRes.ok ↔
+      verifyOneSig cv inPeriod supAlg tagOf keys set sig = true := by
+  unfold oneSigWork at h ⊢
+  unfold verifyOneSig
+  simp only at h ⊢
+  split
+  · simp
+  · split
+    · simp
+    · split
+      · simp
+      · split
+        · simp
+        · split
+          · simp
+          · rename_i h1 h2 h3 h4 h5
+            simp only [h1, h2, h3, h4, h5, if_false] at h
+            rw [candLoop_verdict _ g _ 0 ru b h, List.any_eq_true]
+            exact exists_uniqueSortedKeys (fun k => (cv k sig set == Verdict.ok) = true)
+              (fun a b hab => by simp only [hcv a b hab]) _
+end
+
+theorem sigLoop_verdict (one : VSig → Nat → Nat → WRes × Nat × Nat) (V : VSig → Prop)
+    (hone : ∀ s ru b, (one s ru b).1 ≠ WRes.work → ((one s ru b).1 = WRes.ok ↔ V s)) : ∀ (l : List VSig) (ru b : Nat),
+    (sigLoop one l ru b).1 ≠ WRes.work → ((sigLoop one l ru b).1 = WRes.ok ↔ ∃ s ∈ l, V s) := by
+  intro l
+  induction l with
+  | nil => intro ru b _; simp [sigLoop]
+  | cons s t ih =>
+    intro ru b h
+    unfold sigLoop at h ⊢
+    have hs := hone s ru b
+    rcases hr : one s ru b with ⟨r, b', ru'⟩
+    rw [hr] at h hs
+    cases r with
+    | ok =>
+      simp only [true_iff]
+      exact ⟨s, by simp, (hs (by simp)).mp rfl⟩
+    | work => simp at h
+    | fail =>
+      simp only at h ⊢
+      have hv : ¬ V s := fun hv => by have := (hs (by simp)).mpr hv; cases this
+      rw [ih ru' b' h]
+      constructor
+      · rintro ⟨x, hx, hp⟩; exact ⟨x, List.mem_cons_of_mem _ hx, hp⟩
+      · rintro ⟨x, hx, hp⟩
+        rcases List.mem_cons.mp hx with rfl | hx
+        · exact absurd hp hv
+        · exact ⟨x, hx, hp⟩
+
+theorem groupLoop_verdict (per : (Bytes × Nat × Nat) → Nat → WRes × Nat) (W : (Bytes × Nat × Nat) → Prop)
+    (hper : ∀ k b, (per k b).1 ≠ WRes.work → ((per k b).1 = WRes.ok ↔ W k)) : ∀ (l : List (Bytes × Nat × Nat)) (b : Nat),
+    (groupLoop per l b).1 ≠ WRes.work → ((groupLoop per l b).1 = WRes.ok ↔ ∀ k ∈ l, W k) := by
+  intro l
+  induction l with
+  | nil => intro b _; simp [groupLoop]
+  | cons k t ih =>
+    intro b h
+    unfold groupLoop at h ⊢
+    have hk := hper k b
+    rcases hr : per k b with ⟨r, b'⟩
+    rw [hr] at h hk
+    cases r with
+    | ok =>
+      simp only at h ⊢
+      have hw : W k := (hk (by simp)).mp rfl
+      rw [ih b' h]
+      constructor
+      · intro hall x hx
+        rcases List.mem_cons.mp hx with rfl | hx
+        · exact hw
+        · exact hall x hx
+      · intro hall x hx; exact hall x (List.mem_cons_of_mem _ hx)
+    | work => simp at h
+    | fail =>
+      simp only [reduceCtorEq, false_iff]
+      intro hall
+      have := (hk (by simp)).mpr (hall k (by simp))
+      cases this
+
+section
+variable (cv : VKey → VSig → List VRec → Verdict) (inPeriod : VSig → Bool) (supAlg : Nat → Bool) (tagOf : VKey → Nat)
+  (keys : List VKey)
+
+/-- **without a work error the governed walk is `VerifyRRSIG`.** -/
+theorem verifyRRSIGWork_verdict (g : Gov) (zone : Bytes) (m : VMsg)
+    (hcv : ∀ k k' sig set, keyIdent k = keyIdent k' → cv k sig set = cv k' sig set)
+    (hsig : ∀ s s' set, sigIdent s = sigIdent s' →
+      verifyOneSig cv inPeriod supAlg tagOf keys set s = verifyOneSig cv inPeriod supAlg tagOf keys set s')
+    (h : (verifyRRSIGWork cv inPeriod supAlg tagOf keys g zone m).1 ≠ WRes.work) :
+    (verifyRRSIGWork cv inPeriod supAlg tagOf keys g zone m).1 = WRes.ok ↔
+      verifyRRSIG (verifyOneSig cv inPeriod supAlg tagOf keys) keys.length zone m = true := by
+  unfold verifyRRSIGWork at h ⊢
+  unfold verifyRRSIG
+  simp only at h ⊢
+  split
+  · simp
+  · split
+    · simp
+    · split
+      · simp
+      · split
+        · simp
+        · rename_i h1 h2 h3 h4
+          simp only [h1, h2, h3, h4, if_false] at h
+          generalize hz : lower (fqdn zone) = z at h ⊢
+          rw [groupLoop_verdict _
+            (fun k =>
+              (!((m.sigs.filter (fun s => nameInZone (lower s.name) z)).filter (fun s => sigKey s == k)).isEmpty
+                && isRRset (hdrsOf ((collected z m).filter (fun x => rrKey x == k)))
+                && ((m.sigs.filter (fun s => nameInZone (lower s.name) z)).filter (fun s => sigKey s == k)).any
+                  (fun s => verifyOneSig cv inPeriod supAlg tagOf keys ((collected z m).filter (fun x => rrKey x == k)) s)) = true)
+            _ _ 0 h]
+          · rw [List.all_eq_true]
+            constructor
+            · intro hall r hr
+              exact hall (rrKey r) ((mem_sortBy _ _ _).mpr (by
+                obtain ⟨y, hy, hky⟩ := dedupBy_covers id ((collected z m).map rrKey) [] (rrKey r) (List.mem_map.mpr ⟨r, hr, rfl⟩) (by simp)
+                simp only [id] at hky; rw [← hky]; exact hy))
+            · intro hall k hk
+              have hk' := dedupBy_sub id _ [] k ((mem_sortBy _ _ _).mp hk)
+              obtain ⟨r, hr, rfl⟩ := List.mem_map.mp hk'
+              exact hall r hr
+          · intro k b hk
+            generalize ((m.sigs.filter (fun s => nameInZone (lower s.name) z)).filter (fun s => sigKey s == k)) = sl at hk ⊢
+            generalize ((collected z m).filter (fun x => rrKey x == k)) = set at hk ⊢
+            by_cases he : sl.isEmpty = true
+            · simp [he]
+            · have he' : sl.isEmpty = false := by simpa using he
+              simp only [he', Bool.false_eq_true, if_false] at hk ⊢
+              by_cases hrr : isRRset (hdrsOf set) = true
+              · simp only [hrr, Bool.not_true, Bool.false_eq_true, if_false] at hk ⊢
+                rw [sigLoop_verdict _ (fun s => verifyOneSig cv inPeriod supAlg tagOf keys set s = true)
+                  (fun s ru b hs => oneSigWork_verdict cv inPeriod supAlg tagOf keys g _ s ru b (fun k k' hkk => hcv k k' s _ hkk) hs) _ 0 b hk]
+                simp only [Bool.not_false, Bool.true_and, List.any_eq_true]
+                unfold uniqueSortedSigs
+                exact exists_sortDedup sigIdent sigLt _ (fun a b hab => by simp only [hsig a b _ hab]) _
+              · have hrr' : isRRset (hdrsOf set) = false := by simpa using hrr
+                simp [hrr']
+end
+
 end SdnsVerif.Lemmas.DnssecPrim
